@@ -777,6 +777,12 @@ pub fn alphabet(kind: &str, big: bool) -> (Vec<Op>, Pools) {
                 }
                 v.push(Op::Msg { g, id: 0, created: 0, processed: 0, epoch: None, state: 1, tag: 1 });
                 v.push(Op::Msg { g, id: 1, created: 1, processed: 0, epoch: Some(2), state: 0, tag: 2 });
+                // a second and third carrier of the same tag content: one with an epoch and one (id 0 above) without, in either
+                // insertion and key order, so that "first match" and "first match that has an epoch" differ (seeded change C10-9)
+                v.push(Op::Msg { g, id: 2, created: 1, processed: 1, epoch: Some(1), state: 0, tag: 1 });
+                if big || g == 0 {
+                    v.push(Op::Msg { g, id: 1, created: 0, processed: 1, epoch: None, state: 0, tag: 1 });
+                }
                 // messages in other states than Processed that carry an epoch: an own unconfirmed one, a deleted one
                 v.push(Op::Msg { g, id: 2, created: 0, processed: 0, epoch: Some(2), state: 1, tag: 0 });
                 if big || g == 0 {
